@@ -6,6 +6,9 @@
 -/
 import Rbql.Proofs.RunLevel
 import Rbql.Proofs.LiteralOpacity
+import Rbql.Proofs.Characterisations
+import Rbql.Proofs.RecordsSpec
+import Rbql.Spec.Comparable
 namespace Rbql
 open LitOp
 
@@ -179,5 +182,125 @@ theorem C15_run_update_on_broken_pipe (q : SemQuery) (A B : Table) (hupd : q.isU
     r.error = none ∧ r.rows = rows.take (k - 1) ∧ r.sink.afterRefusal = 0 ∧
     r.sink.writes = min k A.length ∧ r.sink.finished = 1 ∧ r.pulled = min k A.length :=
   run_update_on_broken_pipe q A B hupd hg hjb rows hu k hk
+
+
+/-! ## C03 — aggregates characterised without reference to the accumulators -/
+
+/-- MEDIAN is the middle element of ANY sorted permutation of the values (odd count), or the mean of the two middle
+elements (even count) -/
+theorem C03_median_is_middle_of_sorted (xs : List Rat) (h : xs ≠ []) (ys : List Rat) (hp : ys.Perm xs)
+    (hs : ys.Pairwise (· ≤ ·)) : ∃ h0 : 0 < ys.length, medianOf xs = middleOf ys h0 :=
+  median_is_middle_of_sorted xs h ys hp hs
+
+/-- the (population) variance is a mean of squares: never negative in exact arithmetic -/
+theorem C03_variance_nonneg (xs : List Rat) : 0 ≤ ratVariance xs := ratVariance_nonneg xs
+
+/-- the key column of the output is STRICTLY ascending and is a permutation of the distinct keys: such a list is unique -/
+theorem C03_strictly_ascending_keys_unique (k1 k2 : List (List Val)) (h1 : k1.Pairwise (fun a b => keyCmp a b = .lt))
+    (h2 : k2.Pairwise (fun a b => keyCmp a b = .lt)) (hm : ∀ k, k ∈ k1 ↔ k ∈ k2) : k1 = k2 :=
+  strict_keys_unique k1 k2 h1 h2 hm
+
+/-- the result of an aggregate query, characterised without `aggRowsSpec`: no error, and the rows are, in STRICTLY
+ascending order of a duplicate-free key list whose members are exactly the group keys that occur, the per-key finals of
+column accumulators each of which is the fold of its column over the emissions (TOP applied) -/
+theorem C03_result_characterised (q : SemQuery) (A B : Table)
+    (hsel : q.isUpdate = false) (hagg : q.isAgg = true) (ho : q.orderBy = none) (hd : q.distinct = .no)
+    (hx : q.exceptCols = none)
+    (hjb : ∀ js, q.join = some js → joinBError js.rhs B = none)
+    (kr0 : List Val × Row × Env) (rest : List (List Val × Row × Env))
+    (hk : aggEmissions q B A 0 = .ok (kr0 :: rest))
+    (hw : ∀ kr ∈ kr0 :: rest, kr.2.1.length = (aggColKinds q.items kr0.2.2).length)
+    (rows : List Row) (hr : aggRowsSpec q (kr0 :: rest) = .ok rows) :
+    (run q A B).error = none ∧
+    ∃ (cols : List AggCol) (keys : List (List Val)),
+      cols.length = (aggColKinds q.items kr0.2.2).length ∧
+      (∀ i (hi : i < (aggColKinds q.items kr0.2.2).length) (hc : i < cols.length),
+        foldIncr { kind := (aggColKinds q.items kr0.2.2)[i] }
+          ((kr0 :: rest).map (fun kr => (kr.1, kr.2.1.getD i Val.none))) = .ok cols[i]) ∧
+      keys.Pairwise (fun a b => keyCmp a b = .lt) ∧
+      keys.Nodup ∧ (∀ k, k ∈ keys ↔ ∃ kr ∈ kr0 :: rest, kr.1 = k) ∧
+      (run q A B).rows = truncSpec q.top (keys.map (rowOfKey cols)) :=
+  run_agg_characterised q A B hsel hagg ho hd hx hjb kr0 rest hk hw rows hr
+
+/-! ## C12 — WHAT the reader returns (not only that it does not depend on the chunking) -/
+
+/-- policies other than quoted_rfc, EVERY chunking: the records are the physical lines of the text (BOM removed from
+the first one, comment lines dropped), each split by the policy's splitter; the header is the first of them when one is
+in force; the warnings are exactly: BOM seen, the first line whose split raised the quoting warning, the field-count
+warning of the records -/
+theorem C12_records_are_the_split_lines (c : RCfg) (hpol : c.policy ≠ .quotedRfc) (hc : 1 ≤ c.chunk) (hasHeader : Bool)
+    (modifier : Option Bool) (pieces : List Str) (hp : ∀ p ∈ pieces, p ≠ []) :
+    readAll c hasHeader modifier pieces = .ok
+      { header := if effHeader hasHeader modifier then ((recordsSpec c pieces.flatten).map (·.1)).head? else none,
+        records := if effHeader hasHeader modifier then ((recordsSpec c pieces.flatten).map (·.1)).tail
+          else (recordsSpec c pieces.flatten).map (·.1),
+        warnings := warningsSpec (bomSeen c pieces.flatten) (firstDefectiveSpec c pieces.flatten)
+          ((recordsSpec c pieces.flatten).map (·.1)) } :=
+  readAll_eq_recordsSpec c hpol hc hasHeader modifier pieces hp
+
+/-- quoted_rfc (no comment prefix): the records are the quote-parity groups of physical lines (`assemble`), split -/
+theorem C12_rfc_records_are_the_assembled_lines (c : RCfg) (hpol : c.policy = .quotedRfc) (hcom : c.comment = none)
+    (hc : 1 ≤ c.chunk) (hasHeader : Bool) (modifier : Option Bool) (pieces : List Str) (hp : ∀ p ∈ pieces, p ≠ [])
+    (hgood : ∀ e ∈ rfcRecordsSpec c pieces.flatten, e.2 = false) :
+    readAll c hasHeader modifier pieces = .ok
+      { header := if effHeader hasHeader modifier then ((rfcRecordsSpec c pieces.flatten).map (·.1)).head? else none,
+        records := if effHeader hasHeader modifier then ((rfcRecordsSpec c pieces.flatten).map (·.1)).tail
+          else (rfcRecordsSpec c pieces.flatten).map (·.1),
+        warnings := warningsSpec (bomSeen c pieces.flatten) none ((rfcRecordsSpec c pieces.flatten).map (·.1)) } :=
+  readAll_eq_rfcRecordsSpec c hpol hcom hc hasHeader modifier pieces hp hgood
+
+/-- the BOM warning appears iff an encoding with a BOM is configured and the first physical line starts with it -/
+theorem C12_bom_seen_iff (c : RCfg) (text : Str) :
+    bomSeen c text = true ↔ c.enc ≠ .none ∧ ∃ rest ls, linesSpec text = (bomOf c.enc ++ rest) :: ls :=
+  bomSeen_iff c text
+
+/-! ## C13 — the CSV front-end is a faithful adapter, through the real reader machine -/
+
+/-- a table written with the quoted policy (any good delimiter, LF / CRLF / CR line ends) and read back by the reader
+machine in ANY chunking is the table itself — header first when one is in force — with no warning other than the
+field-count warning a ragged table deserves: `query_csv` sees exactly the records `query_table` would be given -/
+theorem C13_csv_frontend_faithful_quoted {d : Str} (g : GoodDelim d (d != [SPACE])) (hlf : LF ∉ d) (hcr : CR ∉ d)
+    (table : List (List Str)) (hne : ∀ fs ∈ table, fs ≠ [])
+    (hok : ∀ fs ∈ table, ∀ f ∈ fs, FieldOk d f ∧ NoNL f)
+    (sep : Str) (hsep : sep = [LF] ∨ sep = [CR, LF] ∨ sep = [CR])
+    (c : RCfg) (hc : 1 ≤ c.chunk) (hdel : c.delim = d) (hpol : c.policy = .quoted)
+    (hcom : c.comment = none) (henc : c.enc = .none)
+    (hasHeader : Bool) (modifier : Option Bool) (pieces : List Str) (hp : ∀ p ∈ pieces, p ≠ [])
+    (htext : pieces.flatten = table.flatMap (fun fs => joinD d (fs.map (quoteField d)) ++ sep)) :
+    readAll c hasHeader modifier pieces = .ok
+      { header := if effHeader hasHeader modifier then table.head? else none,
+        records := if effHeader hasHeader modifier then table.tail else table,
+        warnings := fieldsWarnSpec table } :=
+  csv_quoted_reader_roundtrip g hlf hcr table hne hok sep hsep c hc hdel hpol hcom henc hasHeader modifier pieces hp htext
+
+theorem C13_csv_frontend_faithful_simple {d : Str} (hd : d ≠ []) (hlf : LF ∉ d) (hcr : CR ∉ d)
+    (table : List (List Str)) (hne : ∀ fs ∈ table, fs ≠ [])
+    (hok : ∀ fs ∈ table, ∀ f ∈ fs, RawOk d f ∧ NoNL f)
+    (sep : Str) (hsep : sep = [LF] ∨ sep = [CR, LF] ∨ sep = [CR])
+    (c : RCfg) (hc : 1 ≤ c.chunk) (hdel : c.delim = d) (hpol : c.policy = .simple)
+    (hcom : c.comment = none) (henc : c.enc = .none)
+    (hasHeader : Bool) (modifier : Option Bool) (pieces : List Str) (hp : ∀ p ∈ pieces, p ≠ [])
+    (htext : pieces.flatten = table.flatMap (fun fs => joinD d fs ++ sep)) :
+    readAll c hasHeader modifier pieces = .ok
+      { header := if effHeader hasHeader modifier then table.head? else none,
+        records := if effHeader hasHeader modifier then table.tail else table,
+        warnings := fieldsWarnSpec table } :=
+  csv_simple_reader_roundtrip hd hlf hcr table hne hok sep hsep c hc hdel hpol hcom henc hasHeader modifier pieces hp htext
+
+/-! ## C02 / C03 — where the host language can order the keys at all -/
+
+/-- the engine as the host runs it (`runChecked`: a host TypeError when two keys to be sorted cannot be ordered) IS
+`run` whenever the keys that get sorted — all ORDER BY keys, or the distinct GROUP BY keys — are mutually comparable;
+the sortedness theorems about `run` (C02_sort_dedup_truncate, C02_order_sorted, C03_one_row_per_key_sorted) speak
+about the real engine exactly under this hypothesis -/
+theorem C02_host_can_order_keys (q : SemQuery) (A B : Table) (sink : Sink)
+    (h : ∀ scalar keys, sortedKeys q A B = some (scalar, keys) → KeysComparable scalar keys) :
+    runChecked q A B sink = .result (run q A B sink) :=
+  runChecked_of_comparable q A B sink h
+
+theorem C03_host_can_order_keys (q : SemQuery) (A B : Table) (sink : Sink)
+    (h : ∀ scalar keys, sortedKeys q A B = some (scalar, keys) → KeysComparable scalar keys) :
+    runChecked q A B sink = .result (run q A B sink) :=
+  runChecked_of_comparable q A B sink h
 
 end Rbql
